@@ -132,13 +132,17 @@ use tauri::ipc::Channel;
 
 
 def named_defs(names, extra_derive="Serialize, Deserialize"):
+    """project types the cases refer to: every second one is a unit-variant enum (valid as a map key)"""
     out = []
-    for n in names:
-        out.append("#[derive(%s)]\npub struct %s {\n    pub v: i32,\n}\n" % (extra_derive, n))
+    for i, n in enumerate(names):
+        if i % 2 == 1:
+            out.append("#[derive(%s, PartialEq, Eq, Hash, PartialOrd, Ord)]\npub enum %s {\n    First,\n    Second,\n}\n" % (extra_derive, n))
+        else:
+            out.append("#[derive(%s)]\npub struct %s {\n    pub v: i32,\n}\n" % (extra_derive, n))
     return "\n".join(out)
 
 
-def types_project(cases, sites=("field", "param", "ret", "chan", "event")):
+def types_project(cases, sites=("field", "param", "ret", "chan", "event"), keep_named=True):
     """cases: list of (idx, named_ast).  Returns (rust_source, spellings{idx:{site:text}})."""
     src = [PRELUDE]
     maxn = 0
@@ -166,7 +170,7 @@ def types_project(cases, sites=("field", "param", "ret", "chan", "event")):
                 body.append("pub fn e%d(app: tauri::AppHandle, x: %s) {\n    app.emit(\"ev%d\", x).ok();\n}\n" % (idx, ty, idx))
     src.append(named_defs(["N%d" % i for i in range(maxn)]))
     # keep every named type reachable regardless of the case under test
-    if maxn:
+    if maxn and keep_named:
         src.append("#[tauri::command]\npub fn keep_named(%s) {}\n" % ", ".join("k%d: N%d" % (i, i) for i in range(maxn)))
     src.extend(body)
     return "\n".join(src), spellings
